@@ -68,7 +68,7 @@ func findReadFile(P *Program) *readFileShape {
 			if res.Len() == 2 && fhT != nil && types.Identical(res.At(0).Type(), fhT) {
 				s.headerCall, s.headerFn = call, cs.Static
 			}
-			if sig.Recv() != nil && fhT != nil && types.Identical(sig.Recv().Type(), fhT) && res.Len() == 2 {
+			if sig.Recv() != nil && fhT != nil && (types.Identical(sig.Recv().Type(), fhT) || types.Identical(sig.Recv().Type(), types.NewPointer(fhT))) && res.Len() == 2 && typeKey(res.At(0).Type()) == "avro.Schema" {
 				s.schemaCall, s.schemaFn = call, cs.Static
 			}
 			if cs.Static.Name() == "Codec" && sig.Recv() != nil {
@@ -259,9 +259,41 @@ func ruleODSchema(c *Ctx, s *readFileShape) {
 	okv := extractOf(lk, 1)
 	val := extractOf(lk, 0)
 	var um *ssa.Call
+	isUnmarshal := func(g *ssa.Function) bool {
+		return g != nil && strings.HasSuffix(qualName(g), "go-json-experiment/json.Unmarshal")
+	}
 	for _, cs := range callsIn(fn) {
-		if cs.Static != nil && strings.HasSuffix(qualName(cs.Static), "go-json-experiment/json.Unmarshal") && cs.Value() != nil {
+		if cs.Static == nil || cs.Value() == nil {
+			continue
+		}
+		if isUnmarshal(cs.Static) {
 			um = cs.Value()
+		}
+		// a module helper that parses its first parameter with json.Unmarshal and hands back the error
+		if P.isModuleFunc(cs.Static) && cs.Static.Blocks != nil && len(cs.Static.Params) >= 1 && errorResultIndex(cs.Static.Signature) >= 0 {
+			for _, ics := range callsIn(cs.Static) {
+				if isUnmarshal(ics.Static) && len(ics.Common.Args) > 0 && ics.Common.Args[0] == ssa.Value(cs.Static.Params[0]) && ics.Value() != nil {
+					// the helper's error is nil only where Unmarshal's is
+					faithful := true
+					ei := errorResultIndex(cs.Static.Signature)
+					for _, r := range returnsOf(cs.Static) {
+						ev := resolvedResults(r)[ei]
+						if ev == ssa.Value(ics.Value()) {
+							continue
+						}
+						if nn, _ := knownNonNil(r.Block(), ev); nn || isFreshError(ev) {
+							continue
+						}
+						if _, isNil := knownNonNil(r.Block(), ssa.Value(ics.Value())); isNil {
+							continue
+						}
+						faithful = false
+					}
+					if faithful {
+						um = cs.Value()
+					}
+				}
+			}
 		}
 	}
 	if !c.Anchor(um != nil && okv != nil && val != nil, "json.Unmarshal call and lookup results") {
